@@ -1,7 +1,184 @@
+import AuModel.StaticCast
 import Driver.Util
 open Au
 
-def dispatchC05 : List String → Option String
-  | _ => none
+/-! Driver commands for C05 (AuModel.Flt, AuModel.StaticCast).
 
-/-! Driver commands for C05. -/
+    c05 conv  S T N D pf x   → the three `<T>` checkers, the value in the common type, the result
+    c05 cast  S T x          → detail::will_static_cast_overflow/truncate<T>(x) and static_cast<T>(x)
+    c05 gv    F pf           → get_value_result<F>(magnitude)
+    c05 sweep S T N D        → digest of `conv` over every value of an 8/16-bit integral S
+
+  Integers are decimal.  Floats are `nan`, `inf`, `-inf` or `m:e` (= m·2^e, m an integer; output is
+  normalised to odd m, zero is `0:0`).  `pf` is `-` or `b^e,b^e,…` (ascending primes). -/
+
+namespace C05
+
+def stripTwos : Nat → Int → Int → Int × Int
+  | 0, m, e => (m, e)
+  | fuel + 1, m, e => if m % 2 = 0 && m ≠ 0 then stripTwos fuel (m / 2) (e + 1) else (m, e)
+
+def fltStr : Flt → String
+  | .nan => "nan"
+  | .inf false => "inf"
+  | .inf true => "-inf"
+  | .fin q =>
+    if q = 0 then "0:0"
+    else if 2 ^ q.den.log2 = q.den then
+      let (m, e) := stripTwos (q.num.natAbs.log2 + 1) q.num (-(q.den.log2 : Int))
+      s!"{m}:{e}"
+    else s!"q:{q.num}/{q.den}"
+
+def parseFlt? (s : String) : Option Flt :=
+  if s = "nan" then some .nan
+  else if s = "inf" then some (.inf false)
+  else if s = "-inf" then some (.inf true)
+  else match s.splitOn ":" with
+    | [ms, es] => match ms.toInt?, es.toInt? with
+      | some m, some e => some (.fin ((m : Rat) * pow2 e))
+      | _, _ => none
+    | _ => none
+
+def parsePf? (s : String) : Option (List (Nat × Int)) :=
+  if s = "-" then some []
+  else (s.splitOn ",").mapM (fun tok =>
+    match tok.splitOn "^" with
+    | [bs, es] => match bs.toNat?, es.toInt? with
+      | some b, some e => some (b, e)
+      | _, _ => none
+    | _ => none)
+
+/-- A value of type `S` from its text form; floats must be representable in the format. -/
+def parseNum? (S : ArithTy) (s : String) : Option Num :=
+  match S with
+  | .int t => match s.toInt? with
+    | some x => if t.inRange x then some (.i x) else none
+    | none => none
+  | .flt f => match parseFlt? s with
+    | some (.fin q) => if rne f q = .fin q then some (.f (.fin q)) else none
+    | some v => some (.f v)
+    | none => none
+
+def numStr : Num → String
+  | .i x => toString x
+  | .f x => fltStr x
+
+def evalNumStr : Eval Num → String
+  | .ok v => numStr v
+  | .ub _ => "ub"
+
+def evalBoolStr : Eval Bool → String
+  | .ok b => b01 b
+  | .ub _ => "ub"
+
+def cmdConv (args : List String) : String :=
+  match args with
+  | [ss, ts, ns, ds, pfs, xs] =>
+    match ArithTy.ofName? ss, ArithTy.ofName? ts, ns.toNat?, ds.toNat?, parsePf? pfs with
+    | some S, some T, some N, some D, some pf =>
+      let k : Factor := ⟨N, D, pf⟩
+      if !k.wf then "bad-op" else
+      match parseNum? S xs with
+      | none => "bad-op"
+      | some x =>
+        let comp := compilesT S T k
+        let o := ovfT S T k x
+        let t := truncT S T k x
+        let l := lossyT S T k x
+        let mid := match ArithTy.common S T with
+          | .flt f => (match midF f k x with | some v => fltStr v | none => "-")
+          | .int _ => "-"
+        if comp then
+          let r := coerceT S T k x
+          s!"compiles=1 ovf={evalBoolStr o} trunc={evalBoolStr t} lossy={evalBoolStr l} mid={mid} val={evalNumStr r.val} n1={b01 r.narrowed1} wr={b01 r.wrapped} n2={b01 r.narrowed2} n3={b01 r.narrowed3}"
+        else
+          s!"compiles=0 ovf={evalBoolStr o} trunc={evalBoolStr t} lossy={evalBoolStr l} mid=- val=- n1=0 wr=0 n2=0 n3=0"
+    | _, _, _, _, _ => "bad-op"
+  | _ => "bad-op"
+
+def cmdCast (args : List String) : String :=
+  match args with
+  | [ss, ts, xs] =>
+    match ArithTy.ofName? ss, ArithTy.ofName? ts with
+    | some S, some T =>
+      match parseNum? S xs with
+      | none => "bad-op"
+      | some x =>
+        if !castCheckable S T then "nocompile" else
+        let c := castNum T x
+        s!"ovf={b01 (willCastOverflow S T x)} trunc={b01 (willCastTruncate S T x)} val={evalNumStr c.val} narrowed={b01 c.narrowed}"
+    | _, _ => "bad-op"
+  | _ => "bad-op"
+
+def cmdGv (args : List String) : String :=
+  match args with
+  | [fs, pfs] =>
+    match FltTy.ofName? fs, parsePf? pfs with
+    | some f, some pf =>
+      if !pfAscending pf then "bad-op" else
+      match gvFlt f pf with
+      | some v => s!"ok {fltStr v}"
+      | none => "err"
+    | _, _ => "bad-op"
+  | _ => "bad-op"
+
+def fnvByte (h : UInt64) (b : UInt64) : UInt64 := (h ^^^ (b &&& 0xff)) * 1099511628211
+
+def fnvU64 (h : UInt64) (v : UInt64) : UInt64 :=
+  (List.range 8).foldl (fun h i => fnvByte h (v >>> (UInt64.ofNat (8 * i)))) h
+
+structure SweepAcc where
+  h : UInt64 := 14695981039346656037
+  n : Nat := 0
+  novf : Nat := 0
+  ntrunc : Nat := 0
+  nlossy : Nat := 0
+  nub : Nat := 0
+  firstub : Option Int := none
+  ncleared : Nat := 0
+
+/-- One value of the sweep.  Where the truncation pipeline is undefined (signed overflow inside the
+checker) the digest uses what every non-trapping evaluation returns for integral reps: the last stage
+(`will_static_cast_truncate` between integral types) is the constant `false`. -/
+def sweepStep (S T : IntTy) (N D : Nat) (comp : Bool) (a : SweepAcc) (x : Int) : SweepAcc :=
+  let o := ovfTII S T N D x
+  let t := truncTII S T N D x
+  let ob : Nat := match o with | .ok true => 1 | .ok false => 0 | .ub _ => 16
+  let tb : Bool := match t with | .ok b => b | .ub _ => false
+  let isub : Bool := match t with | .ok _ => false | .ub _ => true
+  let lb : Bool := tb || ob != 0
+  let flags : Nat := ob + (if tb then 2 else 0) + (if lb then 4 else 0)
+  let h1 := fnvByte a.h (UInt64.ofNat flags)
+  let a1 := { a with n := a.n + 1, novf := a.novf + (if ob = 1 then 1 else 0),
+                     ntrunc := a.ntrunc + (if tb then 1 else 0), nlossy := a.nlossy + (if lb then 1 else 0),
+                     nub := a.nub + (if isub then 1 else 0),
+                     firstub := if isub && a.firstub.isNone then some x else a.firstub }
+  if !lb then
+    if !comp then { a1 with h := fnvByte h1 0xcc, ncleared := a1.ncleared + 1 } else
+    match (coerceII S T N D x).val with
+    | .ok (.i v) => { a1 with h := fnvU64 h1 (UInt64.ofNat (v % (2 ^ 64 : Int)).toNat), ncleared := a1.ncleared + 1 }
+    | _ => { a1 with h := fnvByte h1 0xee, ncleared := a1.ncleared + 1 }
+  else { a1 with h := h1 }
+
+def cmdSweep (args : List String) : String :=
+  match args with
+  | [ss, ts, ns, ds] =>
+    match IntTy.ofName? ss, IntTy.ofName? ts, ns.toNat?, ds.toNat? with
+    | some S, some T, some N, some D =>
+      if N = 0 || D = 0 || S.bits > 16 then "bad-op" else
+      let cnt := (S.hi - S.lo + 1).toNat
+      let comp := compiles (IntTy.common S T) N D
+      let a := (List.range cnt).foldl (fun (a : SweepAcc) (i : Nat) => sweepStep S T N D comp a (S.lo + (i : Int))) {}
+      let fu := match a.firstub with | some x => toString x | none => "-"
+      s!"n={a.n} hash={a.h.toNat} novf={a.novf} ntrunc={a.ntrunc} nlossy={a.nlossy} ubseen={if a.nub > 0 then 1 else 0} firstub={fu} ncleared={a.ncleared} nub={a.nub} compiles={b01 comp}"
+    | _, _, _, _ => "bad-op"
+  | _ => "bad-op"
+
+end C05
+
+def dispatchC05 : List String → Option String
+  | "c05" :: "conv" :: args => some (C05.cmdConv args)
+  | "c05" :: "cast" :: args => some (C05.cmdCast args)
+  | "c05" :: "gv" :: args => some (C05.cmdGv args)
+  | "c05" :: "sweep" :: args => some (C05.cmdSweep args)
+  | _ => none
